@@ -5,6 +5,8 @@ PROP=$1; PATCH=$2
 cd /repo || exit 9
 git apply --check "$PATCH" || { echo "patch does not apply"; exit 9; }
 git apply "$PATCH"
+cp /verif/evidence/$PROP.json /verif/.work/evidence_$PROP.bak 2>/dev/null
 /verif/check "$PROP" | grep -E "^(VIOLATION|UNDECIDED|CHECKER|KNOWN|$PROP:)" | cut -c1-260
 git -C /repo checkout -- .
+cp /verif/.work/evidence_$PROP.bak /verif/evidence/$PROP.json 2>/dev/null
 git -C /repo status --short
